@@ -1,4 +1,4 @@
-package main
+package c15
 
 import (
 	"bytes"
@@ -11,6 +11,7 @@ import (
 	"encoding/json"
 	"errors"
 	"fmt"
+	"github.com/sassoftware/relic/v8/verifharness/core"
 	"io"
 	"net"
 	"net/http"
@@ -48,7 +49,7 @@ type c15Script struct {
 type errBody struct{}
 
 func (errBody) Read([]byte) (int, error) { return 0, io.ErrUnexpectedEOF }
-func (errBody) Close() error              { return nil }
+func (errBody) Close() error             { return nil }
 
 type c15Transport struct {
 	mu      sync.Mutex
@@ -144,12 +145,12 @@ type c15Case struct {
 	Script   []c15Out `json:"script"`
 	CancelAt int      `json:"cancel_at"`
 	// observed
-	Result   int     `json:"result"` // 0 success, 1 error, 2 cancelled, 3 nil-nil
-	ErrOut   c15Out  `json:"err_out"`
-	Attempts int     `json:"attempts"`
-	GapsMs   []int64 `json:"gaps_ms"`
-	AfterCancelMs int64 `json:"after_cancel_ms"`
-	ErrText  string  `json:"err_text,omitempty"`
+	Result        int     `json:"result"` // 0 success, 1 error, 2 cancelled, 3 nil-nil
+	ErrOut        c15Out  `json:"err_out"`
+	Attempts      int     `json:"attempts"`
+	GapsMs        []int64 `json:"gaps_ms"`
+	AfterCancelMs int64   `json:"after_cancel_ms"`
+	ErrText       string  `json:"err_text,omitempty"`
 }
 
 func c15Classify(err error) (int, c15Out) {
@@ -193,24 +194,24 @@ func (k *fakeKey) Sign(io.Reader, []byte, crypto.SignerOpts) ([]byte, error) {
 func (k *fakeKey) SignContext(context.Context, []byte, crypto.SignerOpts) ([]byte, error) {
 	return []byte{1, 2, 3}, nil
 }
-func (k *fakeKey) Config() *config.KeyConfig               { return k.conf }
-func (k *fakeKey) Certificate() []byte                     { return nil }
-func (k *fakeKey) GetID() []byte                           { return k.id }
+func (k *fakeKey) Config() *config.KeyConfig                 { return k.conf }
+func (k *fakeKey) Certificate() []byte                       { return nil }
+func (k *fakeKey) GetID() []byte                             { return k.id }
 func (k *fakeKey) ImportCertificate(*x509.Certificate) error { return errors.New("no") }
 
 var testECKey, _ = ecdsa.GenerateKey(elliptic.P256(), rand.Reader)
 
 func init() {
-	commands["c15"] = func(c *ctx) error {
+	core.Commands["c15"] = func(c *core.Ctx) error {
 		zerolog.SetGlobalLevel(zerolog.Disabled)
-		os.MkdirAll(c.scratch, 0o755)
+		os.MkdirAll(c.Scratch, 0o755)
 		tr := &c15Transport{scripts: map[string]*c15Script{}}
 		http.DefaultClient.Transport = tr
 		var confMu sync.Mutex
 		mkconf := func(retries int) (*config.Config, *config.TokenConfig, error) {
 			confMu.Lock()
 			defer confMu.Unlock()
-			p := filepath.Join(c.scratch, fmt.Sprintf("c15_%d.yml", retries))
+			p := filepath.Join(c.Scratch, fmt.Sprintf("c15_%d.yml", retries))
 			os.WriteFile(p, []byte(fmt.Sprintf("tokens:\n  w:\n    type: pkcs11\n    retries: %d\n    timeout: 1\nkeys:\n  k1:\n    token: w\n", retries)), 0o644)
 			cfg, err := config.ReadFile(p)
 			if err != nil {
@@ -225,9 +226,9 @@ func init() {
 		add := func(kind string, retries int, script []c15Out, cancelAt int) {
 			cases = append(cases, &c15Case{ID: len(cases), Kind: kind, Retries: retries, Script: append([]c15Out{}, script...), CancelAt: cancelAt})
 		}
-		r := &rng{s: c.seed}
+		r := &core.Rng{S: c.Seed}
 		maxR := 3
-		if c.tier == "thorough" {
+		if c.Tier == "thorough" {
 			maxR = 4
 		}
 		for R := 1; R <= maxR; R++ {
@@ -242,13 +243,13 @@ func init() {
 					}
 				} else {
 					np := 6
-					if c.tier == "thorough" {
+					if c.Tier == "thorough" {
 						np = 20
 					}
 					for k := 0; k < np; k++ {
 						p := make([]c15Out, j)
 						for x := range p {
-							p[x] = T[r.intn(len(T))]
+							p[x] = T[r.Intn(len(T))]
 						}
 						if k == 0 {
 							p[j-1] = Tslow
@@ -262,7 +263,7 @@ func init() {
 						continue
 					}
 					for fi, f := range F {
-						if j >= 2 && fi%2 == 1 && c.tier != "thorough" {
+						if j >= 2 && fi%2 == 1 && c.Tier != "thorough" {
 							continue
 						}
 						add("terminal", R, append(append([]c15Out{}, p...), f), -1)
@@ -279,7 +280,7 @@ func init() {
 			for k := 1; k < R; k++ {
 				p := make([]c15Out, R)
 				for x := range p {
-					p[x] = T[r.intn(len(T))]
+					p[x] = T[r.Intn(len(T))]
 				}
 				add("cancel-wait", R, p, k)
 				q := append([]c15Out{}, p...)
@@ -338,18 +339,18 @@ func init() {
 		}
 		wg.Wait()
 		for _, cs := range cases {
-			c.emit(cs)
+			c.Emit(cs)
 		}
 		return nil
 	}
 
 	// worker handler: cookie gate + error classification, also end-to-end through the client
-	commands["c15handler"] = func(c *ctx) error {
+	core.Commands["c15handler"] = func(c *core.Ctx) error {
 		zerolog.SetGlobalLevel(zerolog.Disabled)
-		os.MkdirAll(c.scratch, 0o755)
+		os.MkdirAll(c.Scratch, 0o755)
 		tr := &c15Transport{scripts: map[string]*c15Script{}}
 		http.DefaultClient.Transport = tr
-		p := filepath.Join(c.scratch, "c15h.yml")
+		p := filepath.Join(c.Scratch, "c15h.yml")
 		os.WriteFile(p, []byte("tokens:\n  w:\n    type: pkcs11\n    retries: 1\n    timeout: 5\nkeys:\n  k1:\n    token: w\n"), 0o644)
 		cfg, err := config.ReadFile(p)
 		if err != nil {
@@ -390,16 +391,16 @@ func init() {
 				for _, path := range []string{workerrpc.Ping, workerrpc.GetKey, workerrpc.Sign} {
 					e := mkerr(h)
 					shut := false
-					tok := &fakeToken{conf: cfg.Tokens["w"], ping: func(context.Context) error { return e }}
-					tok.getKey = func(ctx context.Context, name string) (token.Key, error) {
+					tok := &core.FakeToken{Conf: cfg.Tokens["w"], PingFn: func(context.Context) error { return e }}
+					tok.GetKeyFn = func(ctx context.Context, name string) (token.Key, error) {
 						if e != nil {
 							return nil, e
 						}
 						return &fakeKey{id: []byte{1}, conf: cfg.Keys["k1"], pub: &testECKey.PublicKey}, nil
 					}
 					pinged := false
-					origPing := tok.ping
-					tok.ping = func(ctx context.Context) error { pinged = true; return origPing(ctx) }
+					origPing := tok.PingFn
+					tok.PingFn = func(ctx context.Context) error { pinged = true; return origPing(ctx) }
 					h2 := workercmd.VerifHandler(tok, "s3cret-cookie", 0, func() { shut = true })
 					hc := &hcase{ID: id, Cookie: cookie, Herr: h, Path: path}
 					id++
@@ -418,7 +419,7 @@ func init() {
 					rec := httptest.NewRecorder()
 					h2.ServeHTTP(rec, req)
 					hc.Status = rec.Code
-					hc.Dispatched = pinged || len(tok.calls()) > 0
+					hc.Dispatched = pinged || len(tok.Calls()) > 0
 					var rr workerrpc.Response
 					if json.Unmarshal(rec.Body.Bytes(), &rr) == nil {
 						hc.Retryable, hc.Usage, hc.HasErr = rr.Retryable, rr.Usage, rr.Err != ""
@@ -441,7 +442,7 @@ func init() {
 							}
 						}
 					}
-					c.emit(hc)
+					c.Emit(hc)
 				}
 			}
 		}
@@ -449,7 +450,7 @@ func init() {
 	}
 
 	// key cache: operation sequences against tokencache.Cache over a rotating fake token
-	commands["c15cache"] = func(c *ctx) error {
+	core.Commands["c15cache"] = func(c *core.Ctx) error {
 		zerolog.SetGlobalLevel(zerolog.Disabled)
 		type op struct {
 			Want   string `json:"want"` // "", "A", "B"
@@ -465,17 +466,17 @@ func init() {
 			ExpiryMs int64 `json:"expiry_ms"`
 			Ops      []op  `json:"ops"`
 		}
-		r := &rng{s: c.seed ^ 0xcac4e}
+		r := &core.Rng{S: c.Seed ^ 0xcac4e}
 		n := 60
-		if c.tier == "thorough" {
+		if c.Tier == "thorough" {
 			n = 400
 		}
 		var cases []*ccase
 		for i := 0; i < n; i++ {
-			cs := &ccase{ID: i, ExpiryMs: int64(r.pick(0, 40, 40, 3600000))}
-			l := 1 + r.intn(6)
+			cs := &ccase{ID: i, ExpiryMs: int64(r.Pick(0, 40, 40, 3600000))}
+			l := 1 + r.Intn(6)
 			for j := 0; j < l; j++ {
-				cs.Ops = append(cs.Ops, op{Want: []string{"", "", "A", "B"}[r.intn(4)], Sleep: r.chance(30), TokID: []string{"A", "A", "B", ""}[r.intn(4)]})
+				cs.Ops = append(cs.Ops, op{Want: []string{"", "", "A", "B"}[r.Intn(4)], Sleep: r.Chance(30), TokID: []string{"A", "A", "B", ""}[r.Intn(4)]})
 			}
 			cases = append(cases, cs)
 		}
@@ -487,8 +488,8 @@ func init() {
 				defer wg.Done()
 				cur := ""
 				called := false
-				tok := &fakeToken{}
-				tok.getKey = func(ctx context.Context, name string) (token.Key, error) {
+				tok := &core.FakeToken{}
+				tok.GetKeyFn = func(ctx context.Context, name string) (token.Key, error) {
 					called = true
 					if cur == "" {
 						return nil, errors.New("token error")
@@ -520,7 +521,7 @@ func init() {
 		}
 		wg.Wait()
 		for _, cs := range cases {
-			c.emit(cs)
+			c.Emit(cs)
 		}
 		return nil
 	}
